@@ -387,11 +387,13 @@ impl RandomDirector {
                         if !self.benign && self.p.time && self.chance(self.p.p_delay) {
                             // a slow PINGRESP: early, beyond the client's ping lead, or close to the
                             // round-trip bound
-                            let l = match self.rng.gen_range(0..4) {
+                            let l = match self.rng.gen_range(0..5) {
                                 0 => self.rng.gen_range(1..600),
                                 1 => self.rng.gen_range(600..3200),
                                 2 => self.rng.gen_range(3200..4990),
-                                _ => self.rng.gen_range(4990..5010),
+                                3 => self.rng.gen_range(4990..5010),
+                                // exactly the round-trip bound: readable at the instant the timer fires
+                                _ => 5000,
                             };
                             self.broker.hold_until = self.broker.hold_until.max(self.now_ms + l);
                         }
@@ -751,7 +753,7 @@ impl Director for RandomDirector {
             // client asked to be woken at
             let mut to = self.broker.hold_until;
             if let Some(w) = view.wakes.first().copied() {
-                if w > view.now_ms && to >= w && self.chance(0.35) {
+                if w > view.now_ms && to >= w && self.chance(0.6) {
                     // exact coincidence: the answer becomes readable at the very instant of the
                     // deadline the client asked to be woken at
                     self.broker.hold_until = 0;
